@@ -174,8 +174,21 @@ func (a *aclDouble) NewRPCACL(ctx context.Context) (subscribe.RPCACL, error) {
 		}
 		return nil, aclError(kind)
 	}
+	if u%2 == 1 {
+		// every second user gets the same ACL as a plain struct value with a cache map in it: a legal
+		// implementation of the interface whose dynamic type cannot be compared or hashed
+		return rpcACLValue{rpcACL: &rpcACL{a, u, ctx}, seen: map[string]int{}}, nil
+	}
 	return &rpcACL{a, u, ctx}, nil
 }
+
+// rpcACLValue: value receiver, uncomparable dynamic type (see NewRPCACL).
+type rpcACLValue struct {
+	*rpcACL
+	seen map[string]int
+}
+
+func (r rpcACLValue) Check(target string) bool { return r.rpcACL.Check(target) }
 
 // aclError builds the error value an ACL backend may fail with: whatever it is or carries,
 // "authorisation could not be established" and the call is rejected as unauthenticated.
